@@ -16,8 +16,10 @@ def iv_stores(fn, P, cn):
 
 
 COUNT = {0: '(Shr($count, 24) as u8)', 1: '(Shr($count, 16) as u8)', 2: '(Shr($count, 8) as u8)', 3: '($count as u8)'}
-KL = '(Div(AddWithOverflow($ilen, 31).0, 32) as usize)'
-KL2 = '(AddWithOverflow(Div(AddWithOverflow($ilen, 31).0, 32), 2).0 as usize)'
+# accepted idioms for ceil(LENGTH / 32)
+CEIL = ('Div(AddWithOverflow($ilen, 31).0, 32)', 'AddWithOverflow(Div($ilen, 32), (Ne(Rem($ilen, 32), 0) as u32)).0')
+KL = '(%s as usize)' % CEIL[0]
+KL2 = '(AddWithOverflow(%s, 2).0 as usize)' % CEIL[0]
 
 
 def run(cx):
@@ -42,8 +44,10 @@ def run(cx):
     if fn is not None:
         P = Prov(fn, cx.F); cn = Canon(fn, P)
         gk = FR.calls_of(fn, 'generate_keystream')
-        ok = len(gk) == 1 and FR.arg_canon(fn, P, cn, gk[0], 1) == KL
-        cx.add('I-EEA', 'encrypt/keylen', ok, 'keystream length is ceil(LENGTH/32) words', fn.loc())
+        got = FR.arg_canon(fn, P, cn, gk[0], 1) if len(gk) == 1 else ''
+        KL = next(('(%s as usize)' % c for c in CEIL if got == '(%s as usize)' % c), '(%s as usize)' % CEIL[0])
+        ok = got == KL
+        cx.add('I-EEA', 'encrypt/keylen', ok, 'keystream length is ceil(LENGTH/32) words: %s' % got, fn.loc())
         KS = 'generate_keystream($self.zuc, %s)' % KL
         I = 'each(Range::Range{0, %s})' % KL
         ps = [FR.arg_canon(fn, P, cn, b, 1) for b in FR.calls_of(fn, 'push')]
@@ -82,12 +86,15 @@ def run(cx):
     if fn is not None:
         P = Prov(fn, cx.F); cn = Canon(fn, P)
         gk = FR.calls_of(fn, 'generate_keystream')
-        cx.add('I-EIA', 'gen_mac/keylen', len(gk) == 1 and FR.arg_canon(fn, P, cn, gk[0], 1) == KL2, 'keystream length is ceil(LENGTH/32) + 2 words', fn.loc())
+        got = FR.arg_canon(fn, P, cn, gk[0], 1) if len(gk) == 1 else ''
+        CE = next((c for c in CEIL if got == '(AddWithOverflow(%s, 2).0 as usize)' % c), CEIL[0])
+        KL2 = '(AddWithOverflow(%s, 2).0 as usize)' % CE
+        cx.add('I-EIA', 'gen_mac/keylen', got == KL2, 'keystream length is ceil(LENGTH/32) + 2 words: %s' % got, fn.loc())
         KS = 'generate_keystream($self.zuc, %s)' % KL2
         I = 'each(Range::Range{0, ($ilen as usize)})'
         rets = [cn.c(norm(P.rvalue(st['rv'], b, i, 0))) for b, i, st in fn.stmts() if st['k'] == 'assign' and st['lhs']['l'] == 0 and not st['lhs']['p']]
         acc = 'phi(0 | BitXor(phi(0 | var:t@loop), find_word(%s, %s)))' % (KS, I)
-        want = 'BitXor(BitXor(%s, find_word(%s, ($ilen as usize))), find_word(%s, MulWithOverflow(32, (SubWithOverflow(AddWithOverflow(Div(AddWithOverflow($ilen, 31).0, 32), 2).0, 1).0 as usize)).0))' % (acc, KS, KS)
+        want = 'BitXor(BitXor(%s, find_word(%s, ($ilen as usize))), find_word(%s, MulWithOverflow(32, (SubWithOverflow(AddWithOverflow(%s, 2).0, 1).0 as usize)).0))' % (acc, KS, KS, CE)
         cx.add('I-EIA', 'gen_mac/final', rets == [want], 'MAC = T xor z[LENGTH] xor z[32*(L-1)], T = xor of z[i] over the processed bits: %s' % [FR.short(r, 200) for r in rets], fn.loc())
         sw = [(p, cn) for _, p, _, _ in G.bool_switches(fn, P)]
         bit = 'BitAnd($m[Shr(%s, 5)], Shl(1, SubWithOverflow(31, BitAnd(%s, 31)).0))' % (I, I)
